@@ -156,11 +156,15 @@ def o_history(texts):
     return None
 
 
-def o_template_call(text, kwargs, subst_text):
-    """C04: loads(text)(**kwargs) equals loads(subst_text) in operations and variables"""
-    ic, obj = _loads(text)
-    if ic[0] != "prog":
-        return "template is refused with %s: %r" % (ic[1:3], obj)
+def o_template_call(text, kwargs, subst_text, shared=None):
+    """C04: loads(text)(**kwargs) equals loads(subst_text) in operations and variables; with `shared`
+    the template object loaded earlier is instantiated again instead of a freshly loaded one"""
+    if shared is not None:
+        obj = shared
+    else:
+        ic, obj = _loads(text)
+        if ic[0] != "prog":
+            return "template is refused with %s: %r" % (ic[1:3], obj)
     kw = {k: (np.array(v) if isinstance(v, list) else v) for k, v in kwargs.items()}
     with core.quiet():
         try:
